@@ -124,7 +124,7 @@ def beta(ctx, func, call):
     h's body with the arguments substituted for its parameters; None when
     the call is not of that shape.  The result is a fresh tree carrying the
     call's position."""
-    import copy
+    from .symcase import clone
     if not (isinstance(call, ast.Call) and isinstance(call.func, ast.Name)):
         return None
     lam = as_lambda(ctx, func, call.func)
@@ -147,17 +147,113 @@ def beta(ctx, func, call):
     class Sub(ast.NodeTransformer):
         def visit_Name(self, n):
             if isinstance(n.ctx, ast.Load) and n.id in bind:
-                return copy.deepcopy(bind[n.id])
+                return clone(bind[n.id])
             return n
 
         def visit_Lambda(self, n):
             return n
-    new = Sub().visit(copy.deepcopy(body))
+    new = Sub().visit(clone(body))
     for n in ast.walk(new):
         for a in ("lineno", "col_offset", "end_lineno", "end_col_offset"):
             if hasattr(call, a):
                 setattr(n, a, getattr(call, a))
     return new
+
+
+def list_maps(func):
+    """list_maps_in() over the whole body of `func`."""
+    return list_maps_in(func.body)
+
+
+def _scope_nodes(stmts):
+    out = []
+    stack = list(reversed(stmts))
+    while stack:
+        n = stack.pop()
+        out.append(n)
+        if isinstance(n, (ast.FunctionDef, ast.AsyncFunctionDef, ast.ClassDef, ast.Lambda)):
+            continue
+        stack.extend(reversed(list(ast.iter_child_nodes(n))))
+    return out
+
+
+def list_maps_in(stmts):
+    """{name: (iterable expr, target, element expr, node)} for every local
+    list built with one element per item of an iterable, in order: either
+    `L = [E for x in IT]` or `L = []` + `for x in IT: L.append(E)` (the
+    append unconditional, directly in the loop body, the only mutation).
+    `stmts` is a block (e.g. a function body specialised to a case)."""
+    out = {}
+    stores = {}
+    nodes = _scope_nodes(stmts)
+    for n in nodes:
+        if isinstance(n, ast.Name) and isinstance(n.ctx, ast.Store):
+            stores[n.id] = stores.get(n.id, 0) + 1
+    for n in nodes:
+        if isinstance(n, ast.Assign) and len(n.targets) == 1 and \
+                isinstance(n.targets[0], ast.Name) and stores.get(n.targets[0].id) == 1:
+            name = n.targets[0].id
+            v = n.value
+            if isinstance(v, ast.ListComp) and len(v.generators) == 1 and \
+                    not v.generators[0].ifs:
+                g = v.generators[0]
+                out[name] = (g.iter, g.target, v.elt, n)
+            elif isinstance(v, ast.List) and not v.elts:
+                muts = [c for c in nodes if isinstance(c, ast.Call)
+                        and isinstance(c.func, ast.Attribute)
+                        and isinstance(c.func.value, ast.Name)
+                        and c.func.value.id == name
+                        and c.func.attr in ("append", "insert", "extend", "pop",
+                                            "remove", "clear", "sort", "reverse")]
+                if len(muts) == 1 and muts[0].func.attr == "append" and \
+                        len(muts[0].args) == 1:
+                    from .cfg import enclosing_stmt
+                    st = enclosing_stmt(muts[0])
+                    par = getattr(st, "_parent", None)
+                    if isinstance(par, ast.For) and st in par.body and \
+                            not par.orelse and \
+                            isinstance(st, ast.Expr) and st.value is muts[0] and \
+                            not any(isinstance(x, (ast.Break, ast.Continue, ast.Return))
+                                    for b in par.body for x in ast.walk(b)):
+                        out[name] = (par.iter, par.target, muts[0].args[0], par)
+    return out
+
+
+def _match_target(pattern, expr, bind):
+    if isinstance(pattern, ast.Name):
+        bind[pattern.id] = expr
+        return True
+    if isinstance(pattern, (ast.Tuple, ast.List)) and isinstance(expr, (ast.Tuple, ast.List)) \
+            and len(pattern.elts) == len(expr.elts) and not any(
+                isinstance(x, ast.Starred) for x in pattern.elts + expr.elts):
+        return all(_match_target(p, e, bind) for p, e in zip(pattern.elts, expr.elts))
+    return False
+
+
+def resolve_list_map(maps, name, depth=0):
+    """A list map whose iterable is itself a mapped list, composed:
+    `[E2 for T2 in L]` with `L = [E1 for T1 in IT]` reads as
+    `[E2[T2 := E1] for T1 in IT]` (T2 must destructure E1 syntactically)."""
+    from .symcase import clone
+    if name not in maps:
+        return None
+    it, tg, elt, node = maps[name]
+    if isinstance(it, ast.Name) and it.id in maps and depth < 4:
+        inner = resolve_list_map(maps, it.id, depth + 1)
+        if inner is None:
+            return None
+        it2, tg2, elt2, node2 = inner
+        bind = {}
+        if not _match_target(tg, elt2, bind):
+            return None
+
+        class Sub(ast.NodeTransformer):
+            def visit_Name(self, n):
+                if isinstance(n.ctx, ast.Load) and n.id in bind:
+                    return clone(bind[n.id])
+                return n
+        return it2, tg2, Sub().visit(clone(elt)), node2
+    return it, tg, elt, node
 
 
 def defs_of(ctx, func, name_node):
@@ -290,7 +386,17 @@ def recursion_steps(func):
     [(call, parameter, '+'|'-', literal)]."""
     params = set(func.all_param_names())
     out = []
-    for c in func.own_nodes():
+    nodes = list(func.own_nodes())
+    # closures defined inside `func` see its parameters (unless they shadow them)
+    for d in list(nodes):
+        if isinstance(d, (ast.FunctionDef, ast.Lambda)):
+            own = {a.arg for a in d.args.args + d.args.kwonlyargs}
+            if own & params:
+                continue
+            body = d.body if isinstance(d.body, list) else [d.body]
+            for b in body:
+                nodes += [x for x in ast.walk(b)]
+    for c in nodes:
         if not isinstance(c, ast.Call):
             continue
         nm = c.func.attr if isinstance(c.func, ast.Attribute) else (
